@@ -399,8 +399,6 @@ VALUESTRING_REFERENCE = {
     ("fetch.c:fill_path_elements", "duplicate_string", "param:matcher"): "create_matcher() selects this path only for the table row whose operand type is cJSON_String",
     ("groups.c:add_group", "strcmp", "global:all_groups"): "all_groups only ever receives cJSON_CreateString() items (add_group)",
     ("groups.c:get_groups", "strcmp", "global:all_groups"): "all_groups only ever receives cJSON_CreateString() items (add_group)",
-    ("router.c:calculate_size_for_routed_request_id", "snprintf", "param:origin_request_id"): "a numeric id prints as (null) with glibc; uniqueness comes from the counter and the address",
-    ("router.c:fill_routed_request_id", "snprintf", "param:origin_request_id"): "a numeric id prints as (null) with glibc; uniqueness comes from the counter and the address",
 }
 
 
